@@ -169,6 +169,35 @@ def NoShortfallBr (br : Bracket) : Prop :=
   ∀ (k : Nat) (prev next : Rung) (es : List TEntry), br.rungs[k]? = some prev → br.rungs[k + 1]? = some next →
     entriesOf prev.slots = some es → next.slots.length ≤ (es.filter (fun e => !e.2.isNan)).length
 
+/-- executable form of `NoShortfallBr` (for concrete states) -/
+def noShortfallPairs : List Rung → Bool
+  | prev :: next :: rest =>
+    (match entriesOf prev.slots with
+     | some es => decide (next.slots.length ≤ (es.filter (fun e => !e.2.isNan)).length)
+     | none => true) && noShortfallPairs (next :: rest)
+  | _ => true
+
+theorem noShortfallPairs_sound (br : Bracket) (h : noShortfallPairs br.rungs = true) : NoShortfallBr br := by
+  unfold NoShortfallBr
+  generalize br.rungs = rungs at h
+  induction rungs with
+  | nil => intro k prev next es hp; simp at hp
+  | cons r rest ih =>
+    cases rest with
+    | nil => intro k prev next es _ hn; simp at hn
+    | cons r2 rest2 =>
+      simp only [noShortfallPairs, Bool.and_eq_true] at h
+      intro k prev next es hp hn hes
+      cases k with
+      | zero =>
+        simp only [List.getElem?_cons_zero, Option.some.injEq] at hp
+        simp only [List.getElem?_cons_succ, List.getElem?_cons_zero, Option.some.injEq] at hn
+        subst hp; subst hn
+        have := h.1
+        rw [hes] at this
+        simpa using this
+      | succ k => exact ih h.2 k prev next es (by simpa using hp) (by simpa using hn) hes
+
 /-- without shortfall, a trial of rung `j` has no failed (NaN) entry in any rung below -/
 theorem no_nan_below {spec br} (hb : BWF spec br) (hns : NoShortfallBr br) (t : Nat) (j : Nat) :
     ∀ (rgj : Rung), br.rungs[j]? = some rgj → t ∈ rgj.ids →
